@@ -41,7 +41,7 @@ func newPruner() *Pruner {
 	}
 	p := &Pruner{cmd: cmd, in: in, out: bufio.NewReader(out)}
 	pre := strings.Replace(prelude, "(set-option :produce-models true)\n", "", 1)
-	io.WriteString(in, "(set-option :timeout 400)\n"+pre)
+	io.WriteString(in, "(set-option :timeout 400)\n"+pre+wrapDefs("A"))
 	return p
 }
 
